@@ -14,7 +14,7 @@ private call structure has been flattened:
   ("absorbed"), so inventories do not see its events twice.
 """
 import copy, re
-from .facts import Body, strip_generics
+from .facts import Operand, Body, strip_generics
 from .analysis import split_generic_args
 
 IDX_RE = re.compile(r'^\[_(\d+)\]$')
@@ -100,7 +100,8 @@ def _assign(dst_local, operand, line):
 
 
 class Normaliser:
-    def __init__(self, prog, crates, keep=()):
+    def __init__(self, prog, crates, keep=(), only_newtypes=False):
+        self.dissolved = set()          # (callee, line) of calls rewritten into the statements they stand for
         self.prog = prog
         self.crates = set(crates)
         self.keep = set(keep)
@@ -132,6 +133,12 @@ class Normaliser:
         for p, b in prog.bodies.items():
             if self._inlinable(b):
                 self.inlinable[p] = b
+        self.only_newtypes = only_newtypes
+        if only_newtypes:
+            # representation pre-pass: only the inherent methods of the transparent counters are dissolved (and the counters
+            # flattened); everything else - in particular every function a role may be bound to - stays as it is
+            nts = set(self.newtypes)
+            self.inlinable = {p: b for p, b in self.inlinable.items() if strip_generics(b.j.get('impl_self') or '').split('<')[0] in nts}
         # coroutine bodies of private async fns (keyed by the coroutine's own path = the callee of its poll)
         self.awaitable = {}
         for p, b in prog.bodies.items():
@@ -140,7 +147,7 @@ class Normaliser:
             ctor = prog.bodies.get(b.j.get('parent') or '')
             if ctor is None or ctor.kind not in ('Fn', 'AssocFn') or ctor.j.get('vis') == 'pub' or ctor.j.get('impl_trait') or ctor.j.get('in_trait'):
                 continue
-            if ctor.path in self.keep or ctor.name in self.keep or b.path in self.keep or b.name in self.keep:
+            if ctor.path in self.keep or ctor.name in self.keep or b.path in self.keep or b.name in self.keep or only_newtypes:
                 continue
             # the constructor only builds the coroutine from its parameters
             aggs = [s for blk in ctor.blocks for s in blk.stmts if s.kind == 'assign' and s.rv.kind == 'agg' and s.rv.j.get('ak') == 'coroutine' and s.rv.j.get('def') == p]
@@ -150,6 +157,39 @@ class Normaliser:
             if any(blk.term.kind == 'call' and blk.term.rcallee in (p, ctor.path) for blk in b.blocks):
                 continue
             self.awaitable[p] = (b, ctor, aggs[0])
+
+    @property
+    def newtypes(self):
+        """{path: inner type} of the transparent counters of the analysed crates: a non-public struct with exactly one field of an
+        integer / bool / atomic type and no Drop impl (`struct SlotCount(usize)`, `struct UserCount(AtomicUsize)`)"""
+        if getattr(self, '_newtypes', None) is None:
+            out = {}
+            for cn, c_ in self.prog.crates.items():
+                if cn not in self.crates:
+                    continue
+                drops = {strip_generics(i.get('self_ty', '')).split('<')[0] for i in c_.impls if i.get('trait') == 'std::ops::Drop'}
+                for a_ in c_.adts:
+                    if a_.get('kind') != 'Struct' or a_.get('vis') == 'pub' or len(a_.get('variants', [])) != 1 or a_['path'] in drops:
+                        continue
+                    fl = a_['variants'][0]['fields']
+                    if len(fl) == 1 and (fl[0]['ty'] in self.SCALARS or fl[0]['ty'].startswith('std::sync::atomic::Atomic<')):
+                        out[a_['path']] = fl[0]['ty']
+            self._newtypes = out
+        return self._newtypes
+
+    @property
+    def trait_impls(self):
+        if getattr(self, '_trait_impls', None) is None:
+            cnt = {}
+            seen = set()
+            for b_ in self.prog.bodies.values():
+                t_ = b_.j.get('impl_trait')
+                if t_ and b_.kind in ('Fn', 'AssocFn'):
+                    key = (t_, b_.j.get('impl_self'))
+                    if key not in seen:
+                        seen.add(key); cnt[t_] = cnt.get(t_, 0) + 1
+            self._trait_impls = cnt
+        return self._trait_impls
 
     def _crate_of(self, path):
         p = path.lstrip('<')
@@ -162,10 +202,18 @@ class Normaliser:
             return False
         if b.path in self.keep or b.name in self.keep:
             return False
-        if b.j.get('vis') == 'pub':
-            return False
-        if b.j.get('impl_trait') or b.j.get('in_trait'):
-            return False
+        tr = b.j.get('impl_trait')
+        if tr:
+            # the one impl of a helper trait of the analysed crates (an extension trait used like a private function): statically
+            # resolved calls of its methods are inlined like calls of private functions.  Operator / std traits, traits with
+            # several impls and traits of other crates stay calls.
+            if self._crate_of(tr) not in self.crates or self.trait_impls.get(tr, 0) != 1 or b.j.get('impl_derived'):
+                return False
+        else:
+            if b.j.get('vis') == 'pub':
+                return False
+            if b.j.get('in_trait'):
+                return False
         if '_serde' in b.path or '__' in b.path:
             return False
         # constructors of async fns (the body only builds the coroutine)
@@ -230,6 +278,8 @@ class Normaliser:
                     self._inline_call(bj, x, callee.j, closure=False)
                     inlined.append(p); changed = True
                     continue
+                if self.only_newtypes:
+                    continue          # representation pre-pass: nothing else is rewritten
                 # `helper(..).await` on a private async fn that is not role-bound: the helper's body takes the place of the await
                 acb = self.awaitable.get(p)
                 if acb is not None and body.is_coroutine and p != body.path and inlined.count(p) < 3:
@@ -249,6 +299,14 @@ class Normaliser:
                 if fn0 in VALUE_COMBINATORS and self._desugar_value_combinator(bj, x, fn0):
                     changed = True; inlined.append('desugar:' + fn0)
                     continue
+                if fn0 == 'std::mem::replace' and self._desugar_scalar_replace(bj, x):
+                    changed = True; inlined.append('desugar:mem::replace(scalar)')
+                    self.dissolved.add((strip_generics(c.get('rfn') or c.get('fn') or '?'), t.get('line', 0)))
+                    continue
+                if fn0.split('::')[-1] in ('compare_exchange', 'compare_exchange_weak') and 'atomic' in fn0 and self._desugar_cas_loop(bj, x):
+                    changed = True; inlined.append('desugar:cas-loop')
+                    self.dissolved.add((strip_generics(c.get('rfn') or c.get('fn') or '?'), t.get('line', 0)))
+                    continue
                 # a closure built in this body and invoked here
                 fn = strip_generics(c.get('fn', ''))
                 if fn in ('std::ops::Fn::call', 'std::ops::FnMut::call_mut', 'std::ops::FnOnce::call_once') and t.get('args'):
@@ -267,8 +325,10 @@ class Normaliser:
                             and self._crate_of(cl) in self.crates:
                         self._inline_call(bj, x, self.prog.bodies[cl].j, closure=True)
                         inlined.append(cl); changed = True
-        if thread_jumps(bj, enums=self.local_enums):
+        if not self.only_newtypes and thread_jumps(bj, enums=self.local_enums):
             inlined.append('jump-threading')
+        if self.newtypes and self._flatten_newtypes(bj):
+            inlined.append('newtype-flattening')
         if not inlined:
             return body
         nb = Body(body.crate, bj)
@@ -476,6 +536,244 @@ class Normaliser:
         bj['blocks'].append({'cleanup': False, 'stmts': [], 'term': {'k': 'unreachable', 'line': line}})
         return True
 
+
+    SCALARS = ('usize', 'isize', 'u8', 'u16', 'u32', 'u64', 'u128', 'i8', 'i16', 'i32', 'i64', 'i128', 'bool')
+
+    def _desugar_scalar_replace(self, bj, x):
+        """`let old = mem::replace(&mut place, new)` on a plain integer / bool place is `let old = place; place = new;`"""
+        blk = bj['blocks'][x]
+        t = blk['term']
+        args = t.get('args', [])
+        if len(args) != 2 or t.get('t') is None or not t.get('dest') or 'k' in args[0]:
+            return False
+        rp = args[0].get('m') or args[0].get('c')
+        if rp.get('pr'):
+            return False
+        d = self._def_of(bj, rp['l'])
+        if d is None or d[0] != 'stmt' or d[2]['rv']['k'] != 'ref' or d[1] != x:
+            return False
+        place = d[2]['rv']['p']
+        # through reborrows made in this block: `&mut *r` with `r = &mut slots.max_size`
+        for _ in range(3):
+            if place.get('pr') == ['*']:
+                d2 = self._def_of(bj, place['l'])
+                if d2 is not None and d2[0] == 'stmt' and d2[2]['rv']['k'] == 'ref' and d2[1] == x:
+                    place = d2[2]['rv']['p']; continue
+            break
+        ty = place.get('ty') or (bj['locals'][place['l']]['ty'] if not place.get('pr') else '')
+        if ty not in self.SCALARS:
+            return False
+        line = t.get('line', 0)
+        blk['stmts'].append({'k': 'assign', 'p': copy.deepcopy(t['dest']), 'rv': {'k': 'use', 'op': {'c': copy.deepcopy(place)}}, 'line': line})
+        blk['stmts'].append({'k': 'assign', 'p': copy.deepcopy(place), 'rv': {'k': 'use', 'op': copy.deepcopy(args[1])}, 'line': line})
+        blk['term'] = {'k': 'goto', 't': t['t'], 'line': line, 'desugared': 'mem::replace'}
+        return True
+
+    def _desugar_cas_loop(self, bj, x):
+        """a compare-exchange retry loop that stores `expected.wrapping_add(k)` / `wrapping_sub(k)` (or the plain operator) is
+        `fetch_add(k)` / `fetch_sub(k)`: the call is replaced by that read-modify-write and its result by `Ok(old)`, which makes the
+        retry arm unreachable.  Only when the expected value comes from a load of the same atomic or from the failed attempt."""
+        blk = bj['blocks'][x]
+        t = blk['term']
+        args = t.get('args', [])
+        if len(args) != 5 or t.get('t') is None or not t.get('dest') or t['dest'].get('pr'):
+            return False
+        exp, new = args[1], args[2]
+        if 'k' in exp or 'k' in new:
+            return False
+        el = (exp.get('m') or exp.get('c'))
+        nl = (new.get('m') or new.get('c'))
+        if el.get('pr') or nl.get('pr'):
+            return False
+        # new = wrapping_op(expected, k) | expected op k
+        dn = self._all_defs(bj, nl['l'])
+        if len(dn) != 1:
+            return False
+        op_ = None; k_ = None
+        if dn[0][0] == 'call':
+            tt = dn[0][2]
+            fn = strip_generics(tt['f'].get('k', {}).get('fn', '')) if 'k' in tt.get('f', {}) else ''
+            m = fn.split('::')[-1]
+            if m in ('wrapping_add', 'wrapping_sub') and len(tt.get('args', [])) == 2 and 'k' in tt['args'][1]:
+                a0 = tt['args'][0].get('m') or tt['args'][0].get('c')
+                if a0 and not a0.get('pr') and self._same_value(bj, a0['l'], el['l']):
+                    op_ = 'fetch_add' if m == 'wrapping_add' else 'fetch_sub'; k_ = tt['args'][1]
+        if op_ is None:
+            return False
+        # expected: defined by a load of an atomic and/or by the Err payload of this very call
+        ok_src = True
+        for d in self._all_defs(bj, self._root_copy(bj, el['l'])):
+            if d[0] == 'call':
+                fn = strip_generics(d[2]['f'].get('k', {}).get('fn', '')) if 'k' in d[2].get('f', {}) else ''
+                if not (fn.endswith('::load') and 'atomic' in fn):
+                    ok_src = False
+            else:
+                rv = d[2]['rv']
+                src = rv.get('op') if rv['k'] == 'use' else None
+                pl = (src.get('m') or src.get('c')) if src and 'k' not in src else None
+                # through plain copies to the place read: the payload of this call's Err
+                for _ in range(6):
+                    if pl is None or pl.get('pr'):
+                        break
+                    dd = self._all_defs(bj, pl['l'])
+                    if len(dd) == 1 and dd[0][0] == 'stmt' and dd[0][2]['rv']['k'] == 'use' and 'k' not in dd[0][2]['rv']['op']:
+                        pl = dd[0][2]['rv']['op'].get('m') or dd[0][2]['rv']['op'].get('c'); continue
+                    pl = None
+                if not (pl and pl.get('pr') and pl['pr'][0].startswith('@Err') and self._root_copy(bj, pl['l']) == self._root_copy(bj, t['dest']['l'])):
+                    ok_src = False
+        if not ok_src:
+            return False
+        line = t.get('line', 0)
+        old = self._new_local(bj, 'usize', line)
+        fn_name = 'std::sync::atomic::Atomic::<usize>::' + op_
+        nb = len(bj['blocks'])
+        res_ty = t['dest'].get('ty', '')
+        bj['blocks'].append({'cleanup': False,
+                             'stmts': [{'k': 'assign', 'p': copy.deepcopy(t['dest']), 'rv': {'k': 'agg', 'ak': 'adt', 'adt': 'std::result::Result', 'variant': 'Ok', 'fields': ['0'],
+                                                                                              'ops': [{'c': {'l': old, 'pr': [], 'own': [], 'ty': 'usize'}}]}, 'line': line}],
+                             'term': {'k': 'goto', 't': t['t'], 'line': line}})
+        blk['term'] = {'k': 'call', 'f': {'k': {'v': fn_name, 'ty': '', 'fn': fn_name, 'rfn': fn_name, 'fn_inst': fn_name, 'targs': ['usize']}},
+                       'args': [copy.deepcopy(args[0]), copy.deepcopy(k_), copy.deepcopy(args[3])], 'dest': {'l': old, 'pr': [], 'own': [], 'ty': 'usize'},
+                       't': nb, 'u': t.get('u', 'continue'), 'line': line, 'desugared': 'cas-loop'}
+        return True
+
+    def _root_copy(self, bj, l, depth=0):
+        """follow `_a = copy/move _b` chains with a single definition back to the local they copy"""
+        for _ in range(6):
+            ds = self._all_defs(bj, l)
+            if len(ds) == 1 and ds[0][0] == 'stmt' and ds[0][2]['rv']['k'] == 'use' and 'k' not in ds[0][2]['rv']['op']:
+                p = ds[0][2]['rv']['op'].get('m') or ds[0][2]['rv']['op'].get('c')
+                if not p.get('pr'):
+                    l = p['l']; continue
+            break
+        return l
+
+    def _same_value(self, bj, a, b):
+        return self._root_copy(bj, a) == self._root_copy(bj, b)
+
+
+    def _flatten_newtypes(self, bj):
+        """the representation normal form of a transparent counter: `slots.size.0` is `slots.size`, `SlotCount(x)` is `x`, and a
+        reference to such a field made only to call one of the (inlined) methods of the newtype is read through: `(*r).0` with
+        `r = &mut slots.size` is `slots.size`.  Returns True if anything changed."""
+        NT = self.newtypes
+        changed = [False]
+        def is_nt_ty(ty):
+            t = (ty or '').strip()
+            for pre in ('&mut ', '&'):
+                if t.startswith(pre):
+                    t = t[len(pre):]
+                    if t.startswith("'"):
+                        t = t.split(' ', 1)[1] if ' ' in t else t
+                    if t.startswith('mut '):
+                        t = t[4:]
+            return strip_generics(t).split('<')[0] in NT
+        # references to newtype-typed places with a single definition
+        defs = {}
+        for i, blk in enumerate(bj['blocks']):
+            for st in blk['stmts']:
+                if st['k'] == 'assign' and not st['p'].get('pr'):
+                    defs.setdefault(st['p']['l'], []).append(st)
+            tt = blk['term']
+            if tt['k'] == 'call' and tt.get('dest') and not tt['dest'].get('pr'):
+                defs.setdefault(tt['dest']['l'], []).append(None)
+        argc = bj.get('arg_count', 0)
+        fwd = {}
+        def resolve(l, depth=0):
+            if l in fwd:
+                return fwd[l]
+            if depth > 6 or l <= argc or len(defs.get(l, [])) != 1 or defs[l][0] is None:
+                return None
+            rv = defs[l][0]['rv']
+            if rv['k'] == 'use' and 'k' not in rv['op']:
+                p = rv['op'].get('m') or rv['op'].get('c')
+                if not p.get('pr'):
+                    return resolve(p['l'], depth + 1)
+                return None
+            if rv['k'] == 'ref':
+                p = rv['p']
+                if p.get('pr') == ['*']:
+                    return resolve(p['l'], depth + 1)          # reborrow
+                if is_nt_ty(bj['locals'][l]['ty']):
+                    # the locals the place is built from must themselves be defined once
+                    if p['l'] > argc and len(defs.get(p['l'], [])) != 1:
+                        return None
+                    return p
+            return None
+        for l in list(defs):
+            if is_nt_ty(bj['locals'][l]['ty']):
+                r_ = resolve(l)
+                if r_ is not None:
+                    fwd[l] = r_
+        def fix_place(p):
+            pr = p.get('pr') or []
+            own = p.get('own') or []
+            if pr and pr[0] == '*' and p['l'] in fwd:
+                tgt = fwd[p['l']]
+                p['l'] = tgt['l']
+                p['pr'] = list(tgt.get('pr') or []) + pr[1:]
+                p['own'] = (list(tgt.get('own') or []) + [None] * len(tgt.get('pr') or []))[:len(tgt.get('pr') or [])] + (own[1:] if len(own) == len(pr) else [None] * (len(pr) - 1))
+                changed[0] = True
+                pr = p['pr']; own = p['own']
+            if any(o in NT for o in own if o):
+                keep = [k for k in range(len(pr)) if not (k < len(own) and own[k] in NT)]
+                p['pr'] = [pr[k] for k in keep]
+                p['own'] = [own[k] if k < len(own) else None for k in keep]
+                changed[0] = True
+        consts = {}
+        for c_ in self.prog.crates.values():
+            for k_ in c_.j.get('consts', []) or []:
+                if strip_generics(k_.get('ty', '')).split('<')[0] in NT:
+                    m_ = re.match(r'^.*\((.*)\)$', str(k_.get('value', '')))
+                    if m_:
+                        consts[k_['path']] = (m_.group(1), NT[strip_generics(k_['ty']).split('<')[0]])
+        def fix_operand(o):
+            if isinstance(o, dict):
+                if 'c' in o:
+                    fix_place(o['c'])
+                elif 'm' in o:
+                    fix_place(o['m'])
+                elif 'k' in o and isinstance(o['k'], dict):
+                    # an associated constant of the newtype (`SlotCount::ZERO`) is the literal it wraps
+                    key = strip_generics(str(o['k'].get('v', '')))
+                    if key in consts:
+                        o['k']['v'], o['k']['ty'] = consts[key]
+                        changed[0] = True
+        for blk in bj['blocks']:
+            for st in blk['stmts']:
+                if 'p' in st and isinstance(st['p'], dict):
+                    fix_place(st['p'])
+                rv = st.get('rv')
+                if rv:
+                    if rv['k'] == 'agg' and rv.get('ak') == 'adt' and strip_generics(rv.get('adt', '')).split('<')[0] in NT and len(rv.get('ops', [])) == 1:
+                        st['rv'] = {'k': 'use', 'op': rv['ops'][0]}
+                        rv = st['rv']; changed[0] = True
+                    for k in ('op', 'a', 'b'):
+                        if k in rv and isinstance(rv[k], dict):
+                            fix_operand(rv[k])
+                    if 'p' in rv and isinstance(rv['p'], dict):
+                        fix_place(rv['p'])
+                    for o in rv.get('ops', []):
+                        fix_operand(o)
+            tt = blk['term']
+            for k in ('p', 'dest', 'on'):
+                if k in tt and isinstance(tt[k], dict):
+                    fix_place(tt[k])
+            for k in ('d', 'cond', 'value'):
+                if k in tt and isinstance(tt[k], dict):
+                    fix_operand(tt[k])
+            for a in tt.get('args', []):
+                fix_operand(a)
+        for loc in bj['locals']:
+            base = strip_generics(loc['ty']).split('<')[0]
+            if base in NT:
+                loc['ty'] = NT[base]; changed[0] = True
+            elif is_nt_ty(loc['ty']):
+                for n_, inner in NT.items():
+                    if n_ in loc['ty']:
+                        loc['ty'] = loc['ty'].replace(n_, inner); changed[0] = True
+        return changed[0]
+
     def _all_defs(self, bj, l):
         out = []
         for i, blk in enumerate(bj['blocks']):
@@ -620,6 +918,7 @@ class Normaliser:
         line = at.get('line', 0)
         lo = len(bj['locals']); bo = len(blocks)
         cj = copy.deepcopy(cb.j)
+        _instantiate_const_params(cj, ((at.get('f') or {}).get('k') or {}).get('targs') or [])
         bj['locals'].extend(cj['locals'])
         for dbg in cj.get('debug', []):
             if 'p' in dbg:
@@ -715,6 +1014,7 @@ class Normaliser:
         lo = len(bj['locals'])
         bo = len(bj['blocks'])
         cj = copy.deepcopy(cj)
+        _instantiate_const_params(cj, ((t.get('f') or {}).get('k') or {}).get('targs') or [])
         bj['locals'].extend(cj['locals'])
         for d in cj.get('debug', []):
             if 'p' in d:
@@ -743,6 +1043,53 @@ class Normaliser:
         blk['term'] = {'k': 'goto', 't': bo, 'line': line, 'inlined_call': cj['path']}
         for cb in cj['blocks']:
             bj['blocks'].append(_remap_block(cb, lo, bo, dest, ret_target, unwind_target))
+
+
+def _instantiate_const_params(cj, targs):
+    """a helper generic over a `const FLAG: bool` (one body serving two callers) is inlined with the flag's value at this call:
+    the constant operand named after the parameter is replaced by the literal and the switches it decides are folded.  (Only the
+    unambiguous case: one literal among the generic arguments, one parameter name among the body's constants.)"""
+    lits = [a for a in targs if a in ('true', 'false') or re.match(r'^\d+(_[iu](8|16|32|64|128|size))?$', str(a))]
+    names = set()
+    def walk(o, f):
+        if isinstance(o, dict):
+            if set(o.keys()) >= {'v', 'ty'} and isinstance(o.get('v'), str) and 'fn' not in o:
+                f(o)
+            for v in o.values():
+                walk(v, f)
+        elif isinstance(o, list):
+            for v in o:
+                walk(v, f)
+    def collect(k):
+        if re.match(r'^[A-Z][A-Z0-9_]*$', k['v']) and k.get('ty') in ('bool', 'usize', 'u8', 'u16', 'u32', 'u64', 'isize', 'i32', 'i64'):
+            names.add(k['v'])
+    walk(cj['blocks'], collect)
+    if len(lits) != 1 or len(names) != 1:
+        return
+    name, val = list(names)[0], lits[0]
+    def subst(k):
+        if k['v'] == name:
+            k['v'] = val; k['from_const_param'] = True
+    walk(cj['blocks'], subst)
+    # fold: `_f = const <lit>(from param); switch(_f)` in one block, or a switch on the constant itself
+    for blk in cj['blocks']:
+        t = blk['term']
+        if t['k'] != 'switch' or t.get('dty') != 'bool':
+            continue
+        v = None
+        d = t['d']
+        if 'k' in d and d['k'].get('from_const_param'):
+            v = d['k']['v']
+        else:
+            l = _bare_local(d)
+            for s_ in blk['stmts']:
+                if s_['k'] == 'assign' and not s_['p'].get('pr') and s_['p']['l'] == l:
+                    op = s_['rv'].get('op') if s_['rv']['k'] == 'use' else None
+                    v = op['k']['v'] if op is not None and 'k' in op and op['k'].get('from_const_param') else None
+        if v in ('true', 'false'):
+            arms = {a: b for a, b in t['arms']}
+            tgt = arms.get('0', t['otherwise']) if v == 'false' else (arms.get('1') if '1' in arms else t['otherwise'])
+            blk['term'] = {'k': 'goto', 't': tgt, 'line': t.get('line', 0), 'const_param': name}
 
 
 # enums whose freshly built values are threaded to the switch that inspects them (`let r = {.. None / Some(x) ..}; match r`)
@@ -1000,9 +1347,80 @@ def _call_sites(bodies):
     return out
 
 
-def normalise(prog, crates, keep=()):
+def devirtualise_boxed_futures(prog):
+    """`fn f(..) -> Pin<Box<dyn Future>> { Box::pin(async move { .. }) }` awaited by its caller: the caller polls a `dyn Future`
+    and the compiler's resolved callee is missing.  Where the polled value is, by def-use inside the caller, the result of a call
+    of such a constructor, the poll is resolved to the constructor's coroutine - the same edge an `async fn` has.  Returns the
+    number of polls resolved."""
+    n = 0
+    boxed = {}
+    for p, b in prog.bodies.items():
+        if b.kind not in ('Fn', 'AssocFn'):
+            continue
+        cors = [s.rv.j.get('def') for blk in b.blocks for s in blk.stmts if s.kind == 'assign' and s.rv.kind == 'agg' and s.rv.j.get('ak') == 'coroutine']
+        pins = [blk for blk in b.blocks if blk.term.kind == 'call' and not blk.cleanup and any(strip_generics(n_).endswith('Box::pin') or strip_generics(n_).endswith('Box::into_pin') for n_ in blk.term.callee_names())]
+        if len(cors) == 1 and len(pins) == 1 and cors[0] in prog.bodies:
+            boxed[p] = cors[0]
+    if not boxed:
+        return 0
+    for b in prog.bodies.values():
+        an = None
+        for blk in b.blocks:
+            t = blk.term
+            if t.kind != 'call' or blk.cleanup or not t.args or not any(n_ == '<std::pin::Pin<P> as std::future::Future>::poll' or n_.endswith('Pin<P> as std::future::Future>::poll') for n_ in t.callee_names()):
+                continue
+            if t.rcallee in prog.bodies:
+                continue
+            from .analysis import BodyAn
+            an = an or BodyAn(b)
+            op = t.args[0]
+            found = None
+            for _ in range(12):
+                if op.kind == 'const':
+                    break
+                ds = an.defs(op.place.local)
+                if len(ds) != 1:
+                    break
+                d = ds[0]
+                if d[0] == 'stmt':
+                    rv = d[3].rv
+                    if rv.kind in ('use', 'cast') and rv.ops:
+                        op = rv.ops[0]; continue
+                    if rv.kind in ('ref', 'copyderef', 'rawptr'):
+                        op = Operand({'c': {'l': rv.place.local, 'pr': [], 'own': []}}); continue
+                    break
+                tt = d[3]
+                if tt.rcallee in boxed:
+                    found = boxed[tt.rcallee]; break
+                if tt.args and any(n_.endswith('IntoFuture::into_future') or n_.endswith('::new_unchecked') or n_.endswith('Pin::<Ptr>::as_mut') or n_.endswith('Pin::as_mut') or n_.endswith('DerefMut::deref_mut') for n_ in tt.callee_names()):
+                    op = tt.args[0]; continue
+                break
+            if found:
+                t.func.const['rfn'] = found
+                t.func.const['devirtualised'] = True
+                n += 1
+    if n:
+        prog._cg = None
+        prog._an = {}
+    return n
+
+
+def normalise(prog, crates, keep=(), only_newtypes=False):
     """replace every body of the given crates by its inlined view and drop absorbed helpers; returns the Normaliser"""
-    nz = Normaliser(prog, crates, keep)
+    nz = Normaliser(prog, crates, keep, only_newtypes=only_newtypes)
+    if only_newtypes and not nz.newtypes:
+        return nz
+    if nz.newtypes:
+        for cn, c_ in prog.crates.items():
+            if cn in nz.crates:
+                for a_ in c_.adts:
+                    for v_ in a_.get('variants', []):
+                        for f_ in v_['fields']:
+                            if f_['ty'] in nz.newtypes and a_['path'] not in nz.newtypes:
+                                inner = nz.newtypes[f_['ty']]
+                                f_['parts']['adts'] = [x for x in f_['parts'].get('adts', []) if x != f_['ty']] + ([strip_generics(inner).split('<')[0]] if '::' in inner else [])
+                                f_['newtype'] = f_['ty']
+                                f_['ty'] = inner
     before = _call_sites([b for p_, b in prog.bodies.items() if nz._crate_of(p_) in nz.crates])
     new = {}
     for p, b in list(prog.bodies.items()):
@@ -1060,7 +1478,7 @@ def normalise(prog, crates, keep=()):
     gone_names = {strip_generics(g) for g in gone}
     after = _call_sites(new.values())
     lost = sorted((n_, l_) for (n_, l_) in before - after
-                  if n_ not in gone_names and not n_.endswith(AWAIT_PLUMBING) and n_ not in COMBINATORS and n_ not in VALUE_COMBINATORS and not any(n_ == strip_generics(k) for k in COMBINATORS)
+                  if (n_, l_) not in nz.dissolved and n_ not in gone_names and not n_.endswith(AWAIT_PLUMBING) and n_ not in COMBINATORS and n_ not in VALUE_COMBINATORS and not any(n_ == strip_generics(k) for k in COMBINATORS)
                   and not any(x in n_ for x in ('IntoFuture', 'new_unchecked', 'get_context', 'Try>::branch', 'Try::branch')))
     prog.normalise_lost = lost
     for c in prog.crates.values():
@@ -1083,7 +1501,7 @@ def default_keep(prog):
         from .analysis import sources as _sources
         # the hook runner: the async fn that is handed one of the hook lists of the pool
         for b in prog.bodies.values():
-            if not (b.path.startswith('deadpool::managed') or b.path.startswith('<deadpool::managed')):
+            if not (b.path.startswith('deadpool::managed') or b.path.startswith('<deadpool::managed') or (' as deadpool::managed::' in b.path.split('>::')[0] and str(b.file).startswith('src/'))):
                 continue
             ban = None
             for blk in b.blocks:
@@ -1099,7 +1517,7 @@ def default_keep(prog):
                                     if s_.kind == 'assign' and s_.rv.kind == 'agg' and s_.rv.j.get('ak') == 'coroutine':
                                         keep.add(s_.rv.j['def'])
         for b in prog.bodies.values():
-            if b.is_coroutine and (b.path.startswith('deadpool::managed') or b.path.startswith('<deadpool::managed')):
+            if b.is_coroutine and (b.path.startswith('deadpool::managed') or b.path.startswith('<deadpool::managed') or (' as deadpool::managed::' in b.path.split('>::')[0] and str(b.file).startswith('src/'))):
                 for blk in b.blocks:
                     tt = blk.term
                     if tt.kind == 'call' and not blk.cleanup and (is_dyn_call(tt) or (tt.func.kind == 'const' and str(tt.func.const.get('fn', '')).startswith('deadpool::managed::Manager::'))):
